@@ -241,6 +241,17 @@ impl Run {
         if let Some(j) = &self.journal {
             let _ = j.write_all_at(&idx.to_le_bytes(), 0);
         }
+        // (diagnostics: VERIF_UNIT_TIMES=<file> appends "<unit> <seconds since the previous unit began>")
+        if let Ok(path) = std::env::var("VERIF_UNIT_TIMES") {
+            use std::io::Write;
+            thread_local! { static LAST: std::cell::Cell<Option<(u64, Instant)>> = const { std::cell::Cell::new(None) }; }
+            let now = Instant::now();
+            if let Some((u, t)) = LAST.with(|l| l.replace(Some((idx, now)))) {
+                if let Ok(mut f) = std::fs::OpenOptions::new().create(true).append(true).open(&path) {
+                    let _ = writeln!(f, "{u} {:.3}", (now - t).as_secs_f64());
+                }
+            }
+        }
         self.cur_unit = Some(idx);
         progress();
         true
